@@ -54,6 +54,7 @@ def rnE (ν : Ren) (bs : List Name) : Expr → Expr
   | .for i c s b => .for (rnE ν bs i) (rnE ν bs c) (rnE ν bs s) (rnE ν bs b)
   | .forIn x coll b => .forIn (ν x bs.length) (rnE ν bs coll) (rnE ν (x :: bs) b)
   | .call f args => .call (rnE ν bs f) (rnEs ν bs args)
+  | .pipe l f args => .pipe (rnE ν bs l) (rnE ν bs f) (rnEs ν bs args)
   | .builtin b args => .builtin b (rnEs ν bs args)
   | .lam (.mk id n ps r body cs) =>
     if n = "" then .lam (rnF ν bs "" (.mk id n ps r body cs))
@@ -141,6 +142,7 @@ def usesE (bs : List Name) : Expr → List (Name × List Name)
   | .for i c s b => usesE bs i ++ usesE bs c ++ usesE bs s ++ usesE bs b
   | .forIn x coll b => usesE bs coll ++ usesE (x :: bs) b
   | .call f args => usesEs bs args ++ usesE bs f
+  | .pipe l f args => usesEs bs args ++ usesE bs l ++ usesE bs f
   | .builtin _ args | .arrLit _ args _ | .arrNew args _ | .record _ args | .tuple args
   | .enumRec _ _ args | .range args => usesEs bs args
   | .lam (.mk id n ps r body cs) => usesF (if n = "" then bs else n :: bs) (.mk id n ps r body cs)
